@@ -198,7 +198,7 @@ def reapplySkip (sel : Rel) (newSkip : Option Rel) (after : Option UOp) (kw : Op
 /-- `Select.strip()`. -/
 def strip (sel : Rel) : Rel × Bool :=
   let s := sel.slots
-  if !s.dedup && !s.hasSort && !s.hasSlice then (sel.skipTo, s.hasProj) else (sel, false)
+  if !s.dedup && !s.hasSort && !s.hasSlice && !sel.isCompound then (sel.skipTo, s.hasProj) else (sel, false)
 
 /-- `MarkerRelation.reapply(target, payload=None)` for transfers. -/
 def reapplyTransfer (st : Store) (oid : Nat) (dest : Engine) (newTarget : Res) (orig : Rel) : Res :=
@@ -231,8 +231,9 @@ def joinBeginApply (j : JoinOp) (lhs rhs : Rel) : Except Err BOp := do
       if !(common.subset lhs.columns) then throw .column
       if !(common.subset rhs.columns) then throw .column
       pure j
-  if lhs.isJoinIdentity then return .ignoreOne true
-  if rhs.isJoinIdentity then return .ignoreOne false
+  if j.pred.asTrivial == some true then
+    if lhs.isJoinIdentity then return .ignoreOne true
+    if rhs.isJoinIdentity then return .ignoreOne false
   return .join op
 
 /-- `Chain._begin_apply(lhs, rhs)`. -/
@@ -247,8 +248,8 @@ def binaryFinishApply (op : BOp) (lhs rhs : Rel) : Except Err BRes :=
   | .ignoreOne il => .ok (if il then .rhs else .lhs)
   | .chain => .ok (.new (.binary .chain lhs rhs lhs.columns))
   | .join j =>
-    if lhs.isJoinIdentity then .ok .rhs
-    else if rhs.isJoinIdentity then .ok .lhs
+    if j.pred.asTrivial == some true && lhs.isJoinIdentity then .ok .rhs
+    else if j.pred.asTrivial == some true && rhs.isJoinIdentity then .ok .lhs
     else if lhs.engine != rhs.engine then .error .engine
     else if !(j.pred.isSupportedBy lhs.engine.kind) then .error .engine
     else .ok (.new (.binary (.join j) lhs rhs (lhs.columns.union rhs.columns)))
@@ -306,12 +307,23 @@ def appendUnarySel (st : Store) : Nat → AnyOp → Rel → Except Err Res
       else .ok .same
     | .u (.proj c) =>
       if s.dedup then do
+        if !((UOp.sortCols s.sort).subset sel.columns) then
+          -- the Sort uses a column an earlier Projection already dropped
+          if s.hasSlice then
+            return .new (← applySkip sel { proj := some c })
+          else throw .relAlg
         let sub ← reapplySkip sel none none (some { s with sort := [], sliceStart := 0, sliceStop := none })
         return .new (← applySkip (sub.get sel)
           { sort := s.sort, proj := some c, sliceStart := s.sliceStart, sliceStop := s.sliceStop })
       else
         match sel.skipTo with
-        | .binary .chain l r _ => do
+        | .binary .chain l r _ =>
+          if !((UOp.sortCols s.sort).subset c) then do
+            -- the Sort needs a column this Projection drops: nest the UNION
+            let sub ← reapplySkip sel none none (some { s with sort := [], sliceStart := 0, sliceStop := none })
+            return .new (← applySkip (sub.get sel)
+              { sort := s.sort, proj := some c, sliceStart := s.sliceStart, sliceStop := s.sliceStop })
+          else do
           let nl ← applyOp st fuel (.u (.proj c)) l {}
           let nr ← applyOp st fuel (.u (.proj c)) r {}
           let nl := nl.get l
@@ -334,7 +346,16 @@ def appendUnarySel (st : Store) : Nat → AnyOp → Rel → Except Err Res
       if s.hasSlice then do
         return .new (← applySkip sel { sort := ts })
       else
-        reapplySkip sel none none (some { s with sort := UOp.sortThen s.sort ts })
+        let newSort := UOp.sortThen s.sort ts
+        let plain := newSort.all (fun t => match t.expr with
+          | .ref _ => true
+          | _ => false)
+        if sel.isCompound && !plain then do
+          -- ORDER BY terms of a UNION must be plain columns: sort a subquery wrapping the UNION
+          let sub ← reapplySkip sel none none (some { s with sort := [] })
+          return .new (← applySkip (sub.get sel) { sort := newSort })
+        else
+          reapplySkip sel none none (some { s with sort := newSort })
     | .pj p => do
       let res ← if p.fixedIsLhs then appendBinarySql st fuel (.join p.join) p.fixed sel
                 else appendBinarySql st fuel (.join p.join) sel p.fixed
@@ -372,8 +393,11 @@ def appendBinarySel (_st : Store) : Nat → BOp → Rel → Rel → Except Err B
         let r' ← if rs.hasSlice then applySkip r {} else pure r
         return .new (← applySkip (.binary .chain l' r' l'.columns) {})
       | .join j => do
-        let (nl, lp) := strip l
-        let (nr, rp) := strip r
+        let (nl0, lp0) := strip l
+        let (nr0, rp0) := strip r
+        -- hidden columns of a stripped operand must not shadow the other operand's columns
+        let (nl, lp) := if lp0 && !((nl0.columns.diff l.columns).inter r.columns).isEmpty then (l, false) else (nl0, lp0)
+        let (nr, rp) := if rp0 && !((nr0.columns.diff r.columns).inter l.columns).isEmpty then (r, false) else (nr0, rp0)
         let proj : Option Cols := if lp || rp then some (l.columns.union r.columns) else none
         let joined ← binaryFinishApply (.join j) nl nr
         return .new (← applySkip (joined.get nl nr) { proj := proj })
